@@ -20,6 +20,26 @@ CHECKS = {
         ref="§5 C19"),
 }
 
+SYS_NOTE = "Trusted: Coq kernel, extraction, OCaml/Go/Python drivers, the harness's fake API server / informers / queues (assumptions E1-E7 of DESIGN.md), library oracles (CIDR parse/print, labels.Parse, nodeSelectorKey output) fed to the model; model=code agreement is sampled per run on ~2,400 histories + corpus; theorems are about the model (Alloc.v/Sys.v)."
+
+def sysprop(technique, text, ref, note=SYS_NOTE):
+    return dict(technique=technique, text=text, note=note, ref=ref)
+
+CHECKS.update({
+    "C01": sysprop("Coq proof over all histories of the closed-loop model (every PATCH avoids every cached node's CIDRs; reserved block is fresh) + differential correspondence real controller/model on system histories + overlap monitor",
+                   "Theorems (Properties/C01.v) quantify over every op list of Sys.v: user actions, deliveries, stale fetches, write outcomes, crashes/restarts, any ClusterCIDR population. The model is tied to the real NewMultiCIDRRangeAllocator/syncNode/syncClusterCIDR/handlers by running both on the same histories and comparing PATCHes, caches and API state; a monitor evaluates the property on the implementation's traces.",
+                   "§5 C01"),
+    "C03": sysprop("Coq proof (new incarnation's state is a function of the API objects only; history theorems hold across Crash/Construct ops) + correspondence on histories with crashes and restarts + monitor",
+                   "Theorems (Properties/C03.v): a crash keeps exactly the API objects; construction depends on the API objects only; the all-history theorems include restarts. Correspondence compares the rebuilt pools and later writes of every incarnation.",
+                   "§5 C03"),
+    "C06": sysprop("Coq proof (finalizer removed only when unassociated; writes change only the own finalizer) + correspondence on ClusterCIDR UPDATE requests + monitor",
+                   "Theorems (Properties/C06.v) about reconcile_delete / create_cluster_cidr for every state and object; correspondence compares every UPDATE (finalizers, deep-equality of everything else with what was read) and the pools; monitor checks dependants and allocations after a processed deletion.",
+                   "§5 C06"),
+    "C08": sysprop("Coq proof over all histories (PATCH only to a node the cache shows without pod CIDRs; re-sync issues no write) + correspondence + monitor",
+                   "Theorems (Properties/C08.v) over every history from the initial world; correspondence on PATCHes, pool snapshots and caches; monitor checks repeated syncs change nothing and reserve nothing beyond the node's own CIDRs.",
+                   "§5 C08"),
+})
+
 NOT_APPLICABLE = []
 
 def main():
